@@ -28,7 +28,7 @@ TEXT = {
             "numeric enum encodings are read back to the same key/variant; values of the key/value, event and colour "
             "sections are written as stored (no rounding/cast/arithmetic, K7); spinner/hold end-time separator by kind "
             "(K8); encoder redundancy tolerance not coarser than the decoder's (K9); records are lines (K10); list "
-            "fields written whole (K11); a key omitted for a value is omitted only for the decoder's default (K12); timing-line "
+            "fields written whole (K11), the four control-point lists reach the timing lines whole (K11b); a key omitted for a value is omitted only for the decoder's default (K12); timing-line "
             "columns read the control point kind they are decoded into (K13); slider path: type letters, segment decision on "
             "the whole path type, letter followed by the position-dependent separator (K5); conversions copy fields "
             "unmodified (DG-D6); section headers are recognised. Not "
@@ -37,7 +37,8 @@ TEXT = {
     'C03': ("Partial (N): the value of a key/value line is the remainder after the first colon; the six key/value "
             "parsers split only through that one function; metadata lines are not comment-stripped (also not by a "
             "delegating decoder); writer key<->field pairing, values written as stored, lists written whole and "
-            "conversions copying fields unmodified as in C02; the decode-side "
+            "conversions copying fields unmodified as in C02; the decoder stores each key's value as read and feeds each field "
+            "from one key only (K15); the decode-side "
             "numeric limits and funnel of C11. Not decided: that an arbitrary edited value "
             "prints in a form the parser accepts.",
             "callee/constant checks on MIR of the splitter and its callers + key-table agreement"),
@@ -123,7 +124,7 @@ TEXT = {
             "dominance (phase order) and spec-constant checks over MIR/HIR"),
     'C18': ("Strong: kill-before-use (S) of CurveBuffers.path/lengths/vertices from every pub entry point taking the "
             "buffers; cache-invalidation typestate (S) for SliderPath's key fields, curve constructor arguments are "
-            "the unmodified key fields; sibling agreement of the curve constructors and accessors (N); the grow-only "
+            "the unmodified key fields, no comparison of the owner reads the cache; sibling agreement of the curve constructors and accessors (N); the grow-only "
             "Bezier scratch vectors are only used through element access / upper-bounded ranges (N: BZ) and are grown for the "
             "segment before they are taken apart, on every path (N: BZ-S); borrow/"
             "privacy facts by compile-fail witnesses (S). Not decided: that Bezier scratch elements below the point "
